@@ -89,7 +89,9 @@ fn verify_match_rule(
                         let mut res = PathBuf::new();
                         res.push(dst_dir);
                         let mut res = res.to_string_lossy().to_string();
-                        res.push('/');
+                        if !res.ends_with('/') {
+                            res.push('/');
+                        }
                         res
                     }
                 }
@@ -102,7 +104,9 @@ fn verify_match_rule(
                         let mut res = PathBuf::new();
                         res.push(src_dir);
                         let mut res = res.to_string_lossy().to_string();
-                        res.push('/');
+                        if !res.ends_with('/') {
+                            res.push('/');
+                        }
                         res
                     }
                 }
